@@ -1650,5 +1650,5 @@ Proof.
   assert (Hin : In (mkL t Queued) (a_log (abs sm ops))).
   { eapply queued_in_log; [apply HK|]. rewrite <- He2, Hw. apply in_or_app; right; left; reflexivity. }
   apply in_map_iff. exists (mkL t Queued). split; auto. unfold lkey. cbn.
-  unfold e_user in Hu. destruct (e_owner t); try discriminate. reflexivity.
+  unfold e_user in Hu. destruct (e_owner t); try discriminate. now rewrite Htxt.
 Qed.
